@@ -35,3 +35,34 @@ CLAIMS['C10'] = dict(
          "contracts, differentially tested on all small arguments; A1 mathematical integers; A5 value semantics for arrays; requires: "
          "distinct valid indices, term indices in range. Quantified VCs give no counter-models: refutations come from the bounded stage.",
     technique='contract-based deductive verification with loop invariants (own VC generator, z3 E-matching) + bounded enumeration of deletion subsets')
+CLAIMS['C01'] = dict(
+    category='proof',
+    text="The clause that carries soundness -- an ordering is reported only if the rotation re-check accepted it -- is proved as a guard "
+         "obligation on the real AST of the re-check loop body of find_pattern_in_structure (geometry uninterpreted): the good-list grows "
+         "only by the current ordering and only if np.allclose(candidate, q.apply(P') + candidate[axis point], rtol=0, atol=<requested "
+         "atol>) returned True, and the rotation stored for the ordering is that same q. With the assumed contracts of np.allclose and of "
+         "scipy rotations (proper) this is 'one proper rotation plus translation within the absolute tolerance'. Index validity, element "
+         "equality, lattice offsets and distinctness are evaluated as run-time postconditions on ~390 planted searches (bounded).",
+    note="Assumed: np.allclose contract, properness of scipy Rotation.apply, deepcopy; clauses (1),(2),(4) of DESIGN C01 are bounded only "
+         "(the five search loops are not cut); bridge lemma G1 (distinct images) assumed.",
+    technique='contract-based deductive verification (block contract / guard obligation via own VC generator, z3) + bounded run-time postconditions')
+CLAIMS['C02'] = dict(
+    category='other',
+    text="'At most once' is proved: helpers.group_duplicates is verified with a loop invariant (every tuple filed under a key has that "
+         "key, every input tuple is filed) for lists of any length, and with the selection block proved in C03 at most one tuple per key "
+         "is reported. 'Nothing outside tolerance' is the C01 guard obligation. Completeness -- every planted occurrence is reported -- "
+         "is floating-point geometry of the search and is only checked with a stated bound: planted == found on ~390 generated "
+         "structures (4 cells, 7 shapes, boundary-straddling placements, decoys, mirror images, near misses).",
+    note="Level 'other' because the central clause (completeness) is bounded, not proved. Assumes dict-iteration guarantees of Python.",
+    technique='contract-based deductive verification of the uniqueness clause (loop invariant, z3) + bounded planted-structure search for completeness')
+CLAIMS['C03'] = dict(
+    category='other',
+    text="Proved as block contracts on the real AST of find_pattern_in_structure: (a) hint normalisation -- after the first statements the "
+         "axis indices are exactly what the hints say, index 0 included (Python's `or` on integers modelled exactly; the pre-fix code is "
+         "refuted with the replayable input axisp1_idx=0); (b) per candidate group a match is reported iff some ordering passed the "
+         "re-check and it is one of the passing orderings, random.choice entering only as 'returns a member'. All metamorphic relations "
+         "of the statement (shift-and-wrap, permutation, rigid motion, hint triples, seeds, supercells) are relations between two runs "
+         "and are only checked with a stated bound on the real code (~330 relation instances quick; UiO-66 files in thorough).",
+    note="Level 'other': the relations themselves are bounded. np.random inside quaternion_from_two_vectors (antiparallel axes) is outside "
+         "the proved part.",
+    technique='contract-based deductive verification of hint normalisation and RNG independence (block contracts, z3) + bounded metamorphic relations')
